@@ -275,6 +275,19 @@ func init() {
 		it.assume(ts.ULe(v, ts.BV(1<<50, 64)))
 		return v
 	}
+	intercepts["crypto/rand.Read"] = func(it *Interp, fn *ssa.Function, args []Value) Value {
+		b := args[0].(*SliceV)
+		if b.len > 0 {
+			arr := b.cell.v.(*ArrayV)
+			e := make([]Value, len(arr.e))
+			copy(e, arr.e)
+			for i := 0; i < b.len; i++ {
+				e[b.off+i] = it.ts.Var(8, "rand")
+			}
+			b.cell.v = &ArrayV{e}
+		}
+		return TupleV{it.ts.BV(uint64(b.len), 64), &IfaceV{}}
+	}
 	intercepts["time.Sleep"] = noop
 	intercepts["runtime.SetFinalizer"] = noop
 	intercepts["math/bits.Len64"] = nil
